@@ -81,6 +81,14 @@ def replay_chunk(args):
             z = pd.Series(np.arange(len(cells), dtype="int64") * 7 + 91000, name="z")
             df = pd.DataFrame({"x": ser, "z": z})
             opt = case.get("opt")
+            ycat = None
+            if cls.startswith("cat_") and len(cells) and opt in (None, "default", "hive"):
+                # a second categorical column with the same categories but the OPPOSITE order flag and other codes: what is
+                # remembered about one categorical column (dtype, flag, dictionary) must not leak into its neighbour
+                cats_x = list(ser.cat.categories)
+                ycat = pd.Categorical([cats_x[(i * 2 + 1) % len(cats_x)] for i in range(len(cells))], categories=cats_x,
+                                      ordered=not bool(ser.cat.ordered))
+                df.insert(1, "y", ycat)
             widx = False
             if opt == "index":
                 # x is the frame's named row index (categorical / datetime / text / ... index as the class says)
@@ -156,6 +164,14 @@ def replay_chunk(args):
                                                                       "read-back", opt=opt), ci))
                         gi = got.index.get_level_values("x")
                         got = pd.DataFrame({"x": pd.Series(gi.array if hasattr(gi, "array") else gi), "z": got["z"].values})
+                if got is not None and ycat is not None:
+                    if "y" not in got.columns or str(got["y"].dtype) != "category" or \
+                            list(got["y"].astype(object)) != list(pd.Series(ycat).astype(object)) or \
+                            list(got["y"].cat.categories) != list(ycat.categories) or \
+                            bool(got["y"].cat.ordered) != bool(ycat.ordered):
+                        out["viol"].append(("C01", dict(sig, what="a neighbouring categorical column (same categories, opposite "
+                                                                  "order flag) changed on read-back"), ci))
+                    got = got.drop(columns=["y"], errors="ignore")
                 if got is None:
                     pass
                 elif list(got.columns) != ["x", "z"]:
